@@ -1,4 +1,5 @@
 """C20 — waiting senders always wake; dropping the manager stops its workers."""
+import re
 import templates as T
 from facts import tokens, fmt, short, walk
 
@@ -28,6 +29,7 @@ def sync_sections(b):
 
 
 def run(F, R, tier, cfg):
+    no_spin_rule(F, R)
     bodies = [p for p in F.all_body_paths("scion_stack") if p.startswith("scion_stack::path::manager") and not T.is_test_support(p)]
     n_sections = 0
     n_release = 0
@@ -203,3 +205,62 @@ def run(F, R, tier, cfg):
         R.violation("WMC-no-abort", p + "/" + short(c.decl),
                     "a path-set worker is aborted (%s): its exit block never runs, so waiters are not woken and handles report no error" % short(c.decl), c.span.loc)
 
+
+
+AWAIT_DESUGAR = re.compile(r"(::new_unchecked|::get_context|Future::poll|IntoFuture::into_future|::branch|::from_residual)$")
+WAITERS = re.compile(r"MultiPathManager::<F>::(path|path_wait|cached_path)::\{closure#0\}$|PathSetHandle::(await_ongoing_update|wait_initialized|active_path)::\{closure#0\}$")
+
+
+def _sccs(b):
+    import sys as _s
+    _s.setrecursionlimit(20000)
+    idx, low, st, on, out, c = {}, {}, [], set(), [], [0]
+
+    def dfs(v):
+        idx[v] = low[v] = c[0]
+        c[0] += 1
+        st.append(v)
+        on.add(v)
+        for w in b.succ[v]:
+            if w not in idx:
+                dfs(w)
+                low[v] = min(low[v], low[w])
+            elif w in on:
+                low[v] = min(low[v], idx[w])
+        if low[v] == idx[v]:
+            comp = []
+            while True:
+                w = st.pop()
+                on.discard(w)
+                comp.append(w)
+                if w == v:
+                    break
+            if len(comp) > 1 or v in b.succ[v]:
+                out.append(comp)
+    for v in sorted(b.live_blocks()):
+        if v not in idx:
+            dfs(v)
+    return out
+
+
+def no_spin_rule(F, R):
+    """WAIT-no-spin: a caller waiting for a path is parked on the completion notification; the only loops in the waiting
+    functions are the poll loops of their `.await`s.  A retry loop around the wait (re-check, yield, try again) has no bound:
+    when the state it waits for is never reached — a finished lookup that selected no path and set no error — the caller
+    spins forever instead of getting its answer."""
+    n = 0
+    for p in sorted(F.all_body_paths("scion_stack")):
+        if not WAITERS.search(p):
+            continue
+        b = F.body(p)
+        R.fn(p)
+        for comp in _sccs(b):
+            n += 1
+            extra = sorted({short(c.decl) for c in b.calls if c.bb in comp and not c.indirect and not AWAIT_DESUGAR.search(c.decl)})
+            ok = not extra
+            R.ob("WAIT-no-spin", "%s: loop of %d blocks is a bare await poll loop" % (short(p), len(comp)), ok, True,
+                 {"rule": "WAIT-no-spin", "fn": p, "blocks": len(comp), "other_calls_in_loop": extra, "holds": ok})
+            if not ok:
+                R.violation("WAIT-no-spin", p, "%s contains a retry loop around its wait (calls inside the loop: %s): a caller can spin forever after the lookup "
+                            "it waited for has finished" % (short(p), extra[:5]), F.loc(p.replace("::{closure#0}", "")))
+    R.floor("WAIT-no-spin", n, 4, "await poll loops in path / active_path / await_ongoing_update / wait_initialized")
